@@ -24,7 +24,8 @@ var wireReserved = []string{"", "_uuid", "uuid", "named-uuid", "set", "map",
 	"+=", "-=", "*=", "/=", "%=", "insert", "delete",
 	"unlimited", "integer", "real", "boolean", "string", "00000000-0000-0000-0000-000000000000",
 	"type", "enum", "minReal", "maxReal", "minInteger", "maxInteger", "minLength", "maxLength", "refTable", "refType",
-	"key", "value", "min", "max", "ephemeral", "mutable"}
+	"key", "value", "min", "max", "ephemeral", "mutable",
+	"op", "table", "row", "rows", "columns", "mutations", "timeout", "where", "until", "durable", "comment", "lock", "uuid-name", "select"}
 
 var wireFunctions = wireReserved[6:14]
 var wireMutators = wireReserved[14:21]
@@ -788,3 +789,39 @@ func (w *wgen) mutateNode(x interface{}) interface{} {
 }
 
 var _ = val.NewSyms
+
+// wopTerm prints an ovsdb.Operation as a [wop] record term.
+func wopTerm(s *val.Syms, op ovsdb.Operation) string {
+	sym := func(x string) string { return fmt.Sprintf("%d%%N", s.ID(x)) }
+	rowT := func(r ovsdb.Row) string { return gobjTerm(s, map[string]interface{}(r))[len("GObj "):] }
+	var rows, cols, muts, wh []string
+	for _, r := range op.Rows {
+		rows = append(rows, rowT(r))
+	}
+	for _, c := range op.Columns {
+		cols = append(cols, sym(c))
+	}
+	for _, m := range op.Mutations {
+		muts = append(muts, fmt.Sprintf("(%s, %s, %s)", sym(m.Column), sym(string(m.Mutator)), gvalTerm(s, m.Value)))
+	}
+	for _, c := range op.Where {
+		wh = append(wh, fmt.Sprintf("(%s, %s, %s)", sym(c.Column), sym(string(c.Function)), gvalTerm(s, c.Value)))
+	}
+	optI := "None"
+	if op.Timeout != nil {
+		optI = fmt.Sprintf("(Some %s)", val.CoqZ(int64(*op.Timeout)))
+	}
+	optB := "None"
+	if op.Durable != nil {
+		optB = fmt.Sprintf("(Some %v)", *op.Durable)
+	}
+	optS := func(p *string) string {
+		if p == nil {
+			return "None"
+		}
+		return "(Some " + sym(*p) + ")"
+	}
+	return fmt.Sprintf("(mkWOp %s %s %s [%s] [%s] [%s] %s [%s] %s %s %s %s %s %s)", sym(op.Op), sym(op.Table), rowT(op.Row),
+		strings.Join(rows, "; "), strings.Join(cols, "; "), strings.Join(muts, "; "), optI, strings.Join(wh, "; "), sym(op.Until),
+		optB, optS(op.Comment), optS(op.Lock), sym(op.UUID), sym(op.UUIDName))
+}
